@@ -79,6 +79,7 @@ def instantiate_axioms(exprs, packs):
     if "inverse-range" in packs:
         for a in by.get("asin", []):
             ax.append(z3.And(a >= -PI / 2, a <= PI / 2))
+            ax.append(z3.And(z3.Implies(a.arg(0) >= 0, a >= 0), z3.Implies(a.arg(0) <= 0, a <= 0)))
         for a in by.get("acos", []):
             ax.append(z3.And(a >= 0, a <= PI))
         for a in by.get("atan", []):
@@ -89,6 +90,7 @@ def instantiate_axioms(exprs, packs):
         for a in by.get("sqrt", []):
             x = a.arg(0)
             ax.append(z3.Implies(x >= 0, z3.And(a >= 0, a * a == x)))
+            ax.append(z3.Implies(z3.And(x >= 0, x <= 1), a <= 1))
     return ax
 
 
@@ -218,7 +220,7 @@ def run_case(args):
         from . import stdlib
         ex = Explorer(Repo(), stdlib_models=stdlib.MODELS,
                       contracts=_resolve(opts.get("contracts")), cuts=_resolve(opts.get("cuts")),
-                      invariants=_resolve(opts.get("invariants")),
+                      invariants=_resolve(opts.get("invariants")), uf_cuts=_resolve(opts.get("uf_cuts")),
                       math_mode=opts.get("math_mode", "symbolic"),
                       max_unroll=opts.get("max_unroll", 400))
         holder = {}
@@ -280,6 +282,17 @@ def run_case(args):
                         inputs[nm] = model_value(model, spec[0], spec[1], spec[2] if len(spec) > 2 else None)
                     rec["inputs"] = {k: _jsonable(v) for k, v in inputs.items()}
                     st, nctx, ndetail = native_run(h, case, values=inputs)
+                    if st != "violated":
+                        # concretiser: seeded random search for a real input that violates the same harness
+                        import zlib
+                        crng = random.Random(zlib.crc32(vname.encode()) + 17)
+                        for _ in range(opts.get("concretise", 300)):
+                            st2, nctx2, nd2 = native_run(h, case, rng=crng)
+                            if st2 == "violated":
+                                st, ndetail = st2, nd2 + " (input found by seeded random search)"
+                                inputs = dict(nctx2.inputs)
+                                rec["inputs"] = {k: _jsonable(v) for k, v in inputs.items()}
+                                break
                     rec["native"] = st
                     rec["native_detail"] = ndetail
                     rec["smt_model"] = str(model)[:1500]
